@@ -97,6 +97,9 @@ func (propC06) Gen(r *Rng, tier string) *World {
 		k.FailOp = true
 	}
 	k.RawConsts = r.P(0.3)
+	if r.P(0.15) {
+		k.NVars = 0 // programs over constants and operators only (evaluated without a Ctx now and then)
+	}
 	g := NewGen(r, k)
 	w := &World{Prop: "C06"}
 	if r.P(0.03) && len(g.by[TBool]) > 0 {
@@ -157,7 +160,7 @@ func (propC06) Gen(r *Rng, tier string) *World {
 	}
 	w.Cfg = g.C
 	w.Cfg.ViaDirect = r.P(0.3)
-	w.Cfg.DirStyle = r.Intn(6)
+	w.Cfg.DirStyle = r.Intn(8)
 	w.Cfg.ViaAPI = r.P(0.4)
 	m := r.Intn(16)
 	w.Masks = []int{m, []int{15 - m, 0, 15}[r.Intn(3)]}
@@ -189,6 +192,10 @@ func (propC06) Gen(r *Rng, tier string) *World {
 				p.Unavail = append(p.Unavail, v.Name)
 			}
 		}
+		if len(referencedVars(w.Prog)) == 0 && r.P(0.5) {
+			p.NilCtx = true // no variable to read: the caller may pass no Ctx at all
+		}
+		p.RawErr = r.P(0.1)
 		w.Calls = append(w.Calls, p)
 	}
 	w.EnumFaults = r.P(0.5)
